@@ -5,7 +5,7 @@ cd "$(dirname "$0")"
 export CARGO_NET_OFFLINE=true
 mkdir -p .cache/work .cache/replays evidence
 # the whole development must build (every proof file, not only what the checks need): a failure here fails the setup
-( cd coq && coq_makefile -f _CoqProject -o Makefile >/dev/null 2>&1 && { timeout 3000 make -j16 > ../.cache/coq-build.log 2>&1 || { grep -B3 -A12 'Error' ../.cache/coq-build.log | tail -n 60; echo "COQ BUILD FAILED"; exit 1; }; } && grep -c '^COQC' ../.cache/coq-build.log )
+( cd coq && coq_makefile -f _CoqProject -o Makefile >/dev/null 2>&1 && { timeout 3000 make -j16 > ../.cache/coq-build.log 2>&1 || { grep -B3 -A12 'Error' ../.cache/coq-build.log | tail -n 60; echo "COQ BUILD FAILED"; exit 1; }; } && { grep -c '^COQC' ../.cache/coq-build.log || true; } )
 ( cd harness/implrun && cp /repo/Cargo.lock Cargo.lock && CARGO_TARGET_DIR=/verif/.cache/target cargo build --offline --release 2>&1 | tail -n 2 )
 ( cd harness/rt && cp /repo/Cargo.lock Cargo.lock && mkdir -p src/bin && printf 'fn main() {}\n' > src/bin/warmup.rs && CARGO_TARGET_DIR=/verif/.cache/target cargo build --offline --release --bin warmup 2>&1 | tail -n 2; rm -f src/bin/warmup.rs )
 ( cd harness/parserun && cp /repo/Cargo.lock Cargo.lock && CARGO_TARGET_DIR=/verif/.cache/target-parserun cargo build --offline --release 2>&1 | tail -n 2 )
